@@ -83,7 +83,8 @@ class KnownFindings:
 class Check:
     """One run of one property check: collects coverage, violations, writes evidence."""
 
-    def __init__(self, pid: str, tier: str, level: str):
+    def __init__(self, pid: str, tier: str, level: str, silent: bool = False):
+        self.silent = silent          # probe mode: count violations, print/write nothing
         self.pid = pid
         self.tier = tier
         self.level = level
@@ -119,6 +120,10 @@ class Check:
         outcome the deviation predicts); if KNOWN_FINDINGS.txt lists it the case is
         a known finding, otherwise a VIOLATION."""
         what = self.known.lookup(self.pid, key)
+        if self.silent:
+            if what is None:
+                self.violations += 1
+            return
         if what is not None:
             self.known_hit[key] = self.known_hit.get(key, 0) + 1
             if key not in self._printed_known:
@@ -155,3 +160,27 @@ class Check:
               f"distinct={self.cov['distinct_nontrivial']} violations={self.violations} "
               f"known={sum(self.known_hit.values())} wall={ev['wall_s']}s", flush=True)
         return 1 if self.violations else 0
+
+
+def run_probes(pid: str, probes, body: Callable[["Check"], None]) -> int:
+    """Selftest: `probes` is a list of (name, contextmanager-factory) that monkeypatch the library
+    in-process with a realistic bug; `body(chk)` runs the check's core.  A probe is killed when the
+    body reports at least one (non-known) violation.  Exit 0 iff every probe is killed and the
+    unpatched library is clean."""
+    base = Check(pid, "quick", "other", silent=True)
+    body(base)
+    print(f"selftest {pid}: unpatched violations={base.violations}")
+    ok = base.violations == 0
+    for name, cm in probes:
+        chk = Check(pid, "quick", "other", silent=True)
+        try:
+            with cm():
+                body(chk)
+            state = "killed" if chk.violations else "SURVIVED"
+        except MachineryError as e:
+            state = f"machinery-error ({str(e)[:80]})"
+        except Exception as e:  # a probe that makes the harness itself crash counts as noticed
+            state = f"killed (harness exception {type(e).__name__})"
+        print(f"  probe {name}: {state} (violations={chk.violations})")
+        ok = ok and state.startswith("killed")
+    return 0 if ok else 1
